@@ -29,7 +29,9 @@ RULE = (
     "x MD5/SHA-1). Oracle: result == reference semantics on the database == bindings on the "
     "wire (independently decoded). Count-fault class: the agent adds a binding for a further "
     "OID or drops one (get/getnext/set), or answers GETBULK with more than n+m*r bindings => "
-    "SnmpError; shorter GETBULK answers are accepted. Non-trivial: the agent was asked and "
+    "SnmpError; shorter GETBULK answers are accepted. Sequence class: get, get, set, get, "
+    "foreign change at the agent, get, multiget on ONE client within the same second (equal "
+    "request ids and datagrams): every answer is the agent's current value. Non-trivial: the agent was asked and "
     "answered; distinct by (operation, level, per-OID status pattern, fault)."
 )
 ASSUMPTIONS = [
@@ -37,9 +39,9 @@ ASSUMPTIONS = [
     "get-next at the end of the MIB view: NoSuchOID is demanded for the single get-next (statement: 'a single get or get-next of a missing object raises NoSuchOID'); for multi-get-next the positions before the first end-of-view OID are checked strictly, the tail may be absent",
     "clock frozen (C07 covers clock movement)",
 ]
-REQUIRED_MONITORS = ("ok_multiget", "ok_getnext", "ok_set", "ok_bulkget", "count_fault_refused", "nosuchoid_raised")
+REQUIRED_MONITORS = ("ok_multiget", "ok_getnext", "ok_set", "ok_bulkget", "ok_sequences", "count_fault_refused", "nosuchoid_raised")
 
-OPS = ("get", "multiget", "getnext", "multigetnext", "set", "multiset", "bulkget", "countfault", "bulkfault")
+OPS = ("get", "multiget", "getnext", "multigetnext", "set", "multiset", "bulkget", "countfault", "bulkfault", "sequence")
 
 
 def gen_db(rng):
@@ -319,6 +321,43 @@ def run_case(R, level, op, db, args, label="gen"):
                 R.mon["bulk_shorter_than_max_accepted"] += 1
             return
 
+        if op == "sequence":
+            # several operations on ONE client within the same second (identical
+            # request ids and, for repeated GETs, identical request datagrams) while
+            # the agent's state changes: every answer must be the agent's CURRENT one
+            oid = tuple(args["oid"])
+            v2, v3 = args["v2"], args["v3"]
+            w.seam.budget = 30
+            fp = ("c04", op, level, db[oid][0], v2[0], v3[0])
+            steps = []
+            R.case(fp, True, sample=case if R.evaluations % 301 == 0 else None)
+
+            def get():
+                return to_tuple(drive(c.get(OID(oid))))
+
+            try:
+                steps.append(("get", get(), db[oid]))
+                steps.append(("get-again", get(), db[oid]))
+                steps.append(("set", to_tuple(drive(c.set(OID(oid), rig.from_tuple(v2)))), v2))
+                steps.append(("get-after-set", get(), v2))
+                w.agent.db[oid] = v3  # another manager changed it
+                steps.append(("get-after-foreign-change", get(), v3))
+                got = [to_tuple(x) for x in drive(c.multiget([OID(oid), OID(oid)]))]
+                steps.append(("multiget-twice-same-oid", got, [v3, v3]))
+                w.agent.db[oid] = db[oid]
+                steps.append(("get-after-restore", get(), db[oid]))
+            except rig.BudgetExceeded:
+                raise
+            except Exception as exc:  # noqa: BLE001
+                viol("operation sequence on one client raised %r after %r" % (exc, [s0[0] for s0 in steps]))
+                return
+            for name, got, want in steps:
+                if got != want:
+                    viol("step %s returned %r, the agent's current value is %r" % (name, got, want), None)
+                    return
+            R.mon["ok_sequences"] += 1
+            return
+
         if op == "countfault":
             sub = args["sub"]
             fault = args["fault"]
@@ -432,6 +471,14 @@ def gen_args(rng, op, db, level):
             "repeaters": pick_oids(rng, db, rng.randint(0, 3), allow_end=rng.random() < 0.3),
             "maxrep": rng.randint(0, 12),
         }
+    if op == "sequence":
+        present = sorted(db)
+        v2 = gen.gen_value(rng)
+        v3 = gen.gen_value(rng)
+        if v1:
+            v2 = v2 if v2[0] != "c64" else ("int", 2)
+            v3 = v3 if v3[0] != "c64" else ("int", 3)
+        return {"oid": rng.choice(present), "v2": v2, "v3": v3}
     if op == "countfault":
         sub = rng.choice(("get", "multiget", "getnext", "multigetnext", "set", "multiset"))
         n = 1 if sub in ("get", "getnext", "set") else rng.randint(1, 6)
@@ -500,6 +547,9 @@ def replay(R, v):
         return x
 
     args = {k: fix(val) for k, val in args.items()}
+    for key in ("v2", "v3"):
+        if key in args:
+            args[key] = (args[key][0], tuple(args[key][1]) if isinstance(args[key][1], list) else args[key][1])
     if "pairs" in args:
         args["pairs"] = [(tuple(o), (val[0], tuple(val[1]) if isinstance(val[1], list) else val[1])) for o, val in args["pairs"]]
     run_case(R, c["level"], c["op"], dec_db(c["db"]), args, "replay")
